@@ -15,6 +15,7 @@ ACTIONS = ["ReadFlag", "EnterCritical", "RecheckFlag", "Fill1", "Fill2", "SetFla
            "LockLookup", "Find", "Compute", "LockInsert", "Count", "Insert", "Accumulate", "Reduce"]
 # several calls on the same objects with a changing number of active threads (StartCall): quick / thorough configurations
 CALLS = {True: ["MC_Threads_calls", "MC_Threads_calls3"], False: ["MC_Threads_calls_thorough", "MC_Threads_calls3"]}
+MORE = {True: [], False: ["MC_Threads_thorough4"]}      # 4 threads
 WORKLOADS = ["lazy", "rows", "proj", "ll", "lm", "scat", "io"]
 
 
@@ -50,6 +51,9 @@ def run(ctx):
     for a in ACTIONS:
         if r.coverage.get(a, (0, 0))[1] == 0:
             raise lib.ModelFailure("MC_Threads: action %s never taken (vacuous model check)" % a)
+    for cc in MORE[q]:
+        rm_ = lib.tlc("MC_Threads", cfg=cc, workers=8, timeout=1500, heap="6g", deadlock=True)
+        ctx.mc_must_pass(rm_, "all interleavings, safety + deadlock freedom (%s)" % cc, "MC_Threads")
     for cc in CALLS[q]:
         rc_ = lib.tlc("MC_Threads", cfg=cc, workers=4 if q else 8, timeout=1500, heap="6g", coverage=True, deadlock=True)
         ctx.mc_must_pass(rc_, "repeated calls with changing thread counts: result = items of this call only (%s)" % cc, "MC_Threads")
@@ -76,7 +80,7 @@ def run(ctx):
         scratch = os.path.join(ctx.work, "scratch")
         os.makedirs(scratch, exist_ok=True)
         # (name, instances per workload, repetitions per thread count, size class, seed offset)
-        plan = [("q", 3, 2, 0, 0)] if q else [("t0", 6, 4, 0, 0), ("t1", 3, 3, 1, 500), ("t2", 6, 4, 0, 900)]
+        plan = [("q", 3, 2, 0, 0)] if q else [("t0", 5, 3, 0, 0), ("t1", 2, 2, 1, 500), ("t2", 5, 3, 0, 900)]
         traces = []
         for (name, ninst, reps, size, off) in plan:
             t = os.path.join(ctx.work, name + ".ndjson")
